@@ -1,8 +1,9 @@
 """prints the prompt for a seeding sub-agent: property text only + scratch worktree path (nothing from /verif)."""
 import json, sys
 pid = sys.argv[1]
-round2 = len(sys.argv) > 2 and sys.argv[2] == '2'
-nums = ('-4, -5' if round2 else '-1, -2, -3')
+round3 = len(sys.argv) > 2 and sys.argv[2] == '3'
+round2 = (len(sys.argv) > 2 and sys.argv[2] == '2') or round3
+nums = ('-6' if round3 else '-4, -5' if round2 else '-1, -2, -3')
 wt = '/tmp/seedwt/%s' % pid
 for l in open('/verif/properties.jsonl'):
     d = json.loads(l)
@@ -10,6 +11,8 @@ for l in open('/verif/properties.jsonl'):
         break
 prop = {k: d[k] for k in ('id', 'title', 'statement', 'quantifier', 'why_tests_cant', 'anchors')}
 ROUND2 = (" This is a second round: the obvious places (the central formula, the main table, the first branch one would think of) have been tried already. Look for the less obvious ways in which the property can break: code that feeds or consumes the anchored functions (glue, wrappers, option/default handling, caching and update flags, helper functions, conversions, rarely taken branches, a second code path that duplicates the first), a change that is a plausible 'clean-up' or 'optimisation' rather than a typo, or one that only manifests for an unusual but valid input." if round2 else "")
+if round3:
+    ROUND2 += " Third round: aim for a change that needs TWO cooperating sites that each look fine alone, or a multi-step sequence of operations (a particular order of setter calls, a re-use of an object after reconfiguration, an interruption at one point), to manifest. You have about 15 minutes: keep it to a Python-only change and run the full suite exactly once."
 print(f"""You are helping to evaluate a verification effort for the open-source Python/Cython/Numba package TidalPy (tidal heating, Love numbers, orbital evolution).
 You have your own scratch git worktree of the repository at {wt} (a detached checkout with the compiled extension modules already copied in). Work ONLY inside {wt} and /tmp/seedout/{pid}{nums}; never touch /repo or /verif, and do not read anything under /verif.
 
@@ -17,9 +20,9 @@ Here is a semantic property of TidalPy that should hold for the code as it stand
 
 {json.dumps(prop, indent=1)}
 
-Your task: produce {'TWO' if round2 else 'THREE'} different realistic source changes (the kind of regression a maintainer could plausibly introduce: an argument-order swap at one call site, a wrong sign/factor/index in one table entry or one branch, a dropped update flag, an off-by-one in a loop bound, a stale cache, a wrong unit conversion in one path ...) each of which BREAKS this property while the package still imports and the existing test suite still passes. Prefer changes that need something specific in order to manifest (one particular degree, mode, branch, option combination, ordering of calls, input region) over changes that break everything. Changes must be to Python (.py) files or, if you change a .pyx/.pxd Cython file, you must also rebuild the corresponding extension in place so that the compiled module really has the new behaviour (a Python-only change is much simpler; prefer those unless the property lives only in Cython code - in that case changing the thin Python-level wrappers or helper .py files is also fine). Each change must be small (a few lines) and independent of the others (each is applied alone to a clean tree).{ROUND2}
+Your task: produce {'ONE realistic source change' if round3 else 'TWO different realistic source changes' if round2 else 'THREE different realistic source changes'} (the kind of regression a maintainer could plausibly introduce: an argument-order swap at one call site, a wrong sign/factor/index in one table entry or one branch, a dropped update flag, an off-by-one in a loop bound, a stale cache, a wrong unit conversion in one path ...) each of which BREAKS this property while the package still imports and the existing test suite still passes. Prefer changes that need something specific in order to manifest (one particular degree, mode, branch, option combination, ordering of calls, input region) over changes that break everything. Changes must be to Python (.py) files or, if you change a .pyx/.pxd Cython file, you must also rebuild the corresponding extension in place so that the compiled module really has the new behaviour (a Python-only change is much simpler; prefer those unless the property lives only in Cython code - in that case changing the thin Python-level wrappers or helper .py files is also fine). Each change must be small (a few lines) and independent of the others (each is applied alone to a clean tree).{ROUND2}
 
-For each change k = {'4, 5' if round2 else '1, 2, 3'} write into /tmp/seedout/{pid}-k/ :
+For each change k = {'6' if round3 else '4, 5' if round2 else '1, 2, 3'} write into /tmp/seedout/{pid}-k/ :
   - patch.diff : `git diff` of the change against the clean worktree (must apply with `git apply` at the repository root),
   - demo.py    : a self-contained demonstration script, run as `PYTHONPATH=<tree> /venv/bin/python demo.py`, that uses only the public API of the package, exits 0 on the clean tree and exits 1 on the changed tree, and prints what it observed (the concrete inputs and the numbers that violate the property),
   - meta.json  : {{"property": "{pid}", "what": "<one or two sentences: what was changed>", "needs": "<what is needed for the violation to manifest>", "tests_run": "<exactly what you ran and the pass/fail counts>"}}.
